@@ -10,6 +10,7 @@ var (
 	ErrMismatchedPrecision = errors.New("mismatched precision")
 	ErrMismatchedUnit      = errors.New("mismatched unit")
 	ErrIntOverflow         = errors.New("operation resulted in integer overflow")
+	ErrDivideByZero        = errors.New("division by zero")
 )
 
 // Type names.
